@@ -23,7 +23,7 @@ func c16Env() *vEnv {
 func (e *vEnv) waitConnected() bool {
 	for i := 0; i < 100; i++ {
 		rt.RunPending()
-		if e.Cli.Connected() {
+		if e.Cli.Connected() && e.Cli.CurrentEndpoint() != "" {
 			rt.RunPending()
 			return true
 		}
@@ -62,6 +62,9 @@ func c16Resync(cfg c04.Cfg, twoMonitors, follow, before bool) {
 		rt.Assert(e.c01Mirrors(mons...), "C16: the cache follows the database before the connection is lost")
 	}
 
+	// the endpoint stops accepting connections until the transaction below has committed, so that natively too
+	// the client reconnects only afterwards
+	rt.SetListening(e.EP, false)
 	rt.CutConnections()
 	// while the client is away
 	if len(s.Roots) > 0 {
@@ -78,6 +81,7 @@ func c16Resync(cfg c04.Cfg, twoMonitors, follow, before bool) {
 		m := c01Methods[mons[len(mons)-1].method]
 		e.After[m] = func() { rt.CutConnections() }
 	}
+	rt.SetListening(e.EP, true)
 	rt.Assert(e.waitConnected(), "C16: the client reports being connected again")
 	rt.Reach("ran")
 	rt.Assert(s.Matches(e.DB), "C16: the database holds the reference contents")
@@ -113,6 +117,8 @@ func VerifC16Transact() {
 	rt.Assert(e.Cli.Connect(ctx) == nil, "C16: connect succeeds")
 	_, err := e.Cli.MonitorAll(ctx)
 	rt.Assert(err == nil, "C16: monitor all succeeds")
+	e.Limit = map[string]int{"transact": 1}
+	e.LimitMsg = "C16: a transaction is sent to the server at most once (a reply lost with the connection must not lead to a second submission)"
 	switch rt.Choose(3) {
 	case 1:
 		e.Before["transact"] = func() { rt.CutConnections() }
